@@ -36,6 +36,15 @@ type Case struct {
 	Opts  Opts
 	// how the ConsoleWriter of rendering i is built (construct.go); nil = assigned by emit
 	Constructions []string
+	// the value of the global zerolog.ErrorFieldName while the event is rendered ("" = the default, "error")
+	ErrName string
+}
+
+func (cs *Case) errName() string {
+	if cs.ErrName == "" {
+		return "error"
+	}
+	return cs.ErrName
 }
 
 // JSON twin: every string also in Go-quoted form (lossless for invalid UTF-8)
@@ -51,6 +60,10 @@ func (cs *Case) json() map[string]interface{} {
 	}
 	if utf8.Valid(cs.Event) {
 		j["event"] = string(cs.Event)
+	}
+	if cs.ErrName != "" {
+		j["error_field_name_q"] = strconv.Quote(cs.ErrName)
+		j["error_field_name_legend"] = "zerolog.ErrorFieldName is set to this name while the event is rendered (and was while it was logged)"
 	}
 	if cs.Constructions != nil {
 		j["writer_construction_per_rendering"] = cs.Constructions
@@ -87,6 +100,9 @@ func caseFromJSON(j map[string]interface{}) *Case {
 	cs.Opts.TimeFormat, _ = o["time_format"].(string)
 	cs.Opts.Loc, _ = o["time_location"].(string)
 	cs.Opts.TimeFieldFormat, _ = o["time_field_format"].(string)
+	if v, ok := j["error_field_name_q"]; ok {
+		cs.ErrName = unq(v)
+	}
 	if l, ok := j["writer_construction_per_rendering"].([]interface{}); ok {
 		for _, x := range l {
 			m, _ := x.(string)
@@ -111,15 +127,35 @@ func (f failingOut) Write(p []byte) (int, error) {
 func disturbPool(i int) {
 	for k := 0; k < 4; k++ {
 		w := zerolog.ConsoleWriter{Out: failingOut{accept: (i + k) % 3 * 5}, NoColor: true}
-		w.Write([]byte(`{"level":"warn","message":"verif-disturbance","secret":"verif-other-writer"}`))
+		safeWrite(w, []byte(`{"level":"warn","message":"verif-disturbance","secret":"verif-other-writer"}`))
 	}
 }
 
+// safeWrite is ConsoleWriter.Write with a panic turned into a value: "Write succeeds" is part of the
+// property, so a panic out of Write is an observation (a violation with the input), not the end of the run.
+func safeWrite(w zerolog.ConsoleWriter, p []byte) (n int, err error, panicked string) {
+	defer func() {
+		if r := recover(); r != nil {
+			panicked = fmt.Sprint(r)
+			if panicked == "" {
+				panicked = "panic"
+			}
+		}
+	}()
+	n, err = w.Write(p)
+	return
+}
+
+// a panic out of a Write made while a writer was being constructed (construct.go: the use under another
+// configuration before the re-assignment, the use before the struct copy)
+var constructPanic string
+
 func render(cs *Case, reps int) obs {
 	var ob obs
-	saved := zerolog.TimeFieldFormat
+	saved, savedErr := zerolog.TimeFieldFormat, zerolog.ErrorFieldName
 	zerolog.TimeFieldFormat = cs.Opts.TimeFieldFormat
-	defer func() { zerolog.TimeFieldFormat = saved }()
+	zerolog.ErrorFieldName = cs.errName()
+	defer func() { zerolog.TimeFieldFormat, zerolog.ErrorFieldName = saved, savedErr }()
 	for i := 0; i < reps; i++ {
 		if i > 0 {
 			// history: between two renderings another ConsoleWriter (sharing only the
@@ -131,17 +167,22 @@ func render(cs *Case, reps int) obs {
 		if i < len(cs.Constructions) {
 			mode = cs.Constructions[i]
 		}
+		constructPanic = ""
 		w := cs.Opts.writerVia(mode, &out, cs.Event)
-		n, err := w.Write(cs.Event)
+		n, err, pan := safeWrite(w, cs.Event)
+		if pan == "" && constructPanic != "" {
+			pan = constructPanic + " (in the Write made while the writer was constructed: " + mode + ")"
+		}
 		ob.outs = append(ob.outs, append([]byte(nil), out.Bytes()...))
 		ob.ns = append(ob.ns, n)
 		ob.errs = append(ob.errs, err != nil)
+		ob.panics = append(ob.panics, pan)
 	}
 	return ob
 }
 
 func runC16(c *Ctx) {
-	c.Res.Rule = "a case is (event bytes, ConsoleWriter options); events are produced by really logging through zerolog with a seeded generator over every field method (strings of every escaping class incl. control/non-ASCII/invalid UTF-8, all integer/float kinds, bools, nil, Dict/Array/Object/EmbedObject nesting, durations, times, errors, RawJSON, Fields, context fields, user fields named like the reserved names with every value type, the empty key, duplicate keys, keys colliding after escaping), half of them without the trailing newline (as cmd/prettylog passes them); options: PartsOrder nil/empty/permutations/subsets/custom names/repeated names, PartsExclude, FieldsOrder (incl. absent, reserved and repeated names), FieldsExclude, 11 TimeFormats, TimeLocation UTC/fixed offsets/nil(Local=UTC), 9 TimeFieldFormats incl. the four UNIX variants; every case is rendered 3 or 5 times: renderings 0 and 1 by a struct-literal writer, the later ones by writers that reach the same configuration another way (NewConsoleWriter() then assignment of the exported fields, NewConsoleWriter with one or three option functions, a writer constructed and used under a different configuration and then re-assigned, a struct copy of a used writer), rotating from case to case; directed: every construction first/last x 10 configurations; every value type under the message key (Send / Msg(\"\") / Msg(text)) with the message part checked for the number's digits / the string; plus a malformed-input stream (model only). non-trivial = the event decodes and at least one field is rendered; distinct by (event, options)"
+	c.Res.Rule = "a case is (event bytes, ConsoleWriter options); events are produced by really logging through zerolog with a seeded generator over every field method (strings of every escaping class incl. control/non-ASCII/invalid UTF-8, all integer/float kinds, bools, nil, Dict/Array/Object/EmbedObject nesting, durations, times, errors, RawJSON, Fields, context fields, user fields named like the reserved names with every value type, the empty key, duplicate keys, keys colliding after escaping), half of them without the trailing newline (as cmd/prettylog passes them); options: PartsOrder nil/empty/permutations/subsets/custom names/repeated names, PartsExclude, FieldsOrder (incl. absent, reserved and repeated names), FieldsExclude, 11 TimeFormats, TimeLocation UTC/fixed offsets/nil(Local=UTC), 9 TimeFieldFormats incl. the four UNIX variants; every case is rendered 3 or 5 times: renderings 0 and 1 by a struct-literal writer, the later ones by writers that reach the same configuration another way (NewConsoleWriter() then assignment of the exported fields, NewConsoleWriter with one or three option functions, a writer constructed and used under a different configuration and then re-assigned, a struct copy of a used writer), rotating from case to case; directed: every construction first/last x 10 configurations; every value type under the message key (Send / Msg(\"\") / Msg(text)) with the message part checked for the number's digits / the string; directed error-field sweep: events with the error field alone / first / last / between other fields / as a number / from the logger's context / absent x FieldsExclude sets with and without the error field's name (alone, with a neighbour, with all others, everything but it, listed twice) x FieldsOrder lists putting names that sort before/after it (and itself) in front, under the default and three renamed zerolog.ErrorFieldName (renamed: monitors only); a panic out of Write is an observation (violation write-panics with the input), also in the auxiliary one-part renderings and in the writes made while a writer is constructed; cmd/prettylog of the repository under test built and fed streams of real events of 100 B .. 60 KiB (line lengths at and around 4096 and its doublings; bulk = long plain/quoted string, hundreds of fields, array, dict, hex, message, error) through stdin / one file / two files, with and without -time-format full and a final newline, its output compared with ConsoleWriter.Write on the same lines; plus a malformed-input stream (model only). non-trivial = the event decodes and at least one field is rendered; distinct by (event, options)"
 	if os.Getenv("NO_COLOR") != "" {
 		c.Note("NO_COLOR is set; irrelevant with NoColor=true")
 	}
@@ -176,12 +217,18 @@ func runC16(c *Ctx) {
 			interiorNL++
 		}
 		c16monitor(c, cs, ob)
-		tb := buildTables(dec, cs.Opts)
-		term := fmt.Sprintf("((%s, %s, %d%%N, %s), (%s, %d%%N, %s))", cs.Opts.coq(), dec.coq(), len(cs.Event), tb.coq(),
-			CoqBytes(ob.outs[0]), ob.ns[0], CoqBool(ob.errs[0]))
 		j := cs.json()
 		j["observed"] = map[string]interface{}{"out_q": strconv.Quote(string(ob.outs[0])), "n": ob.ns[0], "err": ob.errs[0], "renderings": reps}
-		c.AddCase(term, j)
+		if cs.errName() == "error" {
+			tb := buildTables(dec, cs.Opts)
+			term := fmt.Sprintf("((%s, %s, %d%%N, %s), (%s, %d%%N, %s))", cs.Opts.coq(), dec.coq(), len(cs.Event), tb.coq(),
+				CoqBytes(ob.outs[0]), ob.ns[0], CoqBool(ob.errs[0]))
+			c.AddCase(term, j)
+		} else {
+			// the model (Misc/Console.v) has the field names of globals.go as constants: a renamed
+			// ErrorFieldName is checked by the monitors only
+			c.Hist("monitor_only", "renamed-error-field")
+		}
 		// coverage
 		nfields := 0
 		for _, e := range dec.kvs {
@@ -190,7 +237,7 @@ func runC16(c *Ctx) {
 			}
 			c.Hist("value_kind", e.v.kind)
 		}
-		c.Count(strconv.Quote(string(cs.Event))+"|"+cs.Opts.coq(), dec.ok && nfields > 0)
+		c.Count(strconv.Quote(string(cs.Event))+"|"+cs.Opts.coq()+"|"+cs.ErrName, dec.ok && nfields > 0)
 		c.Hist("class", class)
 		c.Hist("rendered_fields", fmt.Sprintf("%d", nfields))
 		c.Hist("input_bytes", fmt.Sprintf("%d", len(cs.Event)/100*100))
@@ -210,8 +257,14 @@ func runC16(c *Ctx) {
 			if _, ok := dec.m[""]; ok {
 				c.Hist("special_keys", "empty-key")
 			}
-			if _, ok := dec.m["error"]; ok {
+			if _, ok := dec.m[cs.errName()]; ok {
 				c.Hist("special_keys", "error")
+				if inList(cs.errName(), cs.Opts.FieldsExclude) {
+					c.Hist("special_keys", "error-excluded")
+				}
+				if len(cs.Opts.FieldsOrder) > 0 {
+					c.Hist("special_keys", "error-under-fieldsorder")
+				}
 			}
 		} else {
 			c.Hist("decode", "error")
@@ -234,6 +287,10 @@ func runC16(c *Ctx) {
 		cj, _ := rp["case"].(map[string]interface{})
 		if cj == nil {
 			panic("replay file has no case")
+		}
+		if sc, _ := cj["scenario"].(string); sc == "prettylog" {
+			prettylogScenario(c, plFromJSON(cj))
+			return
 		}
 		emit(caseFromJSON(cj), "replay")
 		return
@@ -283,6 +340,106 @@ func runC16(c *Ctx) {
 			cs := def(ev)
 			cs.Opts.FieldsOrder = fo
 			emit(cs, "directed-search")
+		}
+	}
+	// ---- directed: the error field against FieldsExclude, FieldsOrder and ErrorFieldName.  The "move the error
+	// field to the front" step works on the list that is left after the exclusion and after the ordering: events
+	// with the error field alone / before / after / between other fields (also under a value that is not a string,
+	// from the logger's context, and a control event without one) x FieldsExclude sets with and without the error
+	// field's name (alone, with the field before it, after it, all others, everything but it, listed twice) x
+	// FieldsOrder lists that put names sorting before / after the error field's name in front (so that the slice
+	// handed to the binary search is not sorted), with and without the error name itself; the same under a renamed
+	// zerolog.ErrorFieldName sorting between, after and before the other names.
+	{
+		boom := fmt.Errorf("boom")
+		type evgen struct {
+			name string
+			f    func(l zerolog.Logger)
+		}
+		evs := func(n string) []evgen {
+			return []evgen{
+				{"error-only-key", func(l zerolog.Logger) { l.Log().Err(boom).Send() }},
+				{"error-only-field", func(l zerolog.Logger) { l.Error().Err(boom).Msg("failed") }},
+				{"between", func(l zerolog.Logger) {
+					l.Error().Str("attempt", "3").Err(boom).Str("user", "bob").Str("zone", "eu").Msg("failed")
+				}},
+				{"last", func(l zerolog.Logger) { l.Warn().Str("Alpha", "1").Str("B", "two words").Err(boom).Msg("failed") }},
+				{"first", func(l zerolog.Logger) { l.Info().Err(boom).Str("zebra", "Zulu").Str("~", "t").Msg("failed") }},
+				{"number-and-empty-key", func(l zerolog.Logger) { l.Debug().Str("", "e").Int(n, 5).Str("foo", "bar").Str("zebra", "Zulu").Send() }},
+				{"context-error", func(l zerolog.Logger) {
+					ll := l.With().Err(boom).Logger()
+					ll.Warn().Str("foo", "bar").Str("zebra", "Zulu").Msg("ctx")
+				}},
+				{"no-error", func(l zerolog.Logger) { l.Error().Str("attempt", "3").Str("user", "bob").Msg("control") }},
+			}
+		}
+		for ni, n := range []string{"error", "err", "zz_err", "Cause"} {
+			saved := zerolog.ErrorFieldName
+			zerolog.ErrorFieldName = n
+			for ei, eg := range evs(n) {
+				ev := logged(eg.f)
+				var before, after []string // the other fields, sorting before / after the error field's name
+				{
+					var ks []string
+					for _, e := range decodeEvent(ev).kvs {
+						if !isReserved(e.k) && e.k != n {
+							ks = append(ks, e.k)
+						}
+					}
+					sort.Strings(ks)
+					for _, k := range ks {
+						if k < n {
+							before = append(before, k)
+						} else {
+							after = append(after, k)
+						}
+					}
+				}
+				others := append(append([]string{}, before...), after...)
+				first := func(xs []string) []string {
+					if len(xs) == 0 {
+						return nil
+					}
+					return xs[:1]
+				}
+				last := func(xs []string) []string {
+					if len(xs) == 0 {
+						return nil
+					}
+					return xs[len(xs)-1:]
+				}
+				cat := func(xss ...[]string) []string {
+					var out []string
+					for _, xs := range xss {
+						out = append(out, xs...)
+					}
+					return out
+				}
+				N := []string{n}
+				excl := [][]string{nil, N, cat(N, last(before)), cat(first(after), N), cat(N, others), others, first(before), cat([]string{"nope"}, N, N), last(after)}
+				ords := [][]string{nil, last(after), first(before), N, cat(last(after), N), cat(N, first(before)), cat(last(after), first(before)),
+					cat(first(before), first(after), N), {"nope"}, cat(reversed(others)), cat(first(after), []string{"nope"}, last(before))}
+				seen := map[string]bool{}
+				for xi, x := range excl {
+					for oi, o := range ords {
+						if ni > 0 && (xi+oi+ei)%2 == 1 {
+							continue // renamed (monitors only): every second combination
+						}
+						key := strings.Join(qs(x), ",") + "|" + strings.Join(qs(o), ",")
+						if seen[key] {
+							continue
+						}
+						seen[key] = true
+						cs := def(ev)
+						cs.Opts.FieldsExclude, cs.Opts.FieldsOrder = x, o
+						if ni > 0 {
+							cs.ErrName = n
+						}
+						emit(cs, "directed-error-field/"+eg.name)
+					}
+				}
+			}
+			zerolog.ErrorFieldName = saved
 		}
 	}
 	// ---- directed: every single byte as a string value (the needsQuote boundary), and as a key
@@ -539,6 +696,9 @@ func runC16(c *Ctx) {
 		}
 		emit(def(ev), "malformed")
 	}
+
+	// ---- the shipped front end: streams of events through cmd/prettylog of the repository under test (prettylog.go)
+	prettylogScenario(c, nil)
 }
 
 func mergeHist(m map[string]int, k string, v int) map[string]int {
